@@ -10,8 +10,12 @@ import (
 func C06Scenario() *Scenario {
 	return &Scenario{Prop: "C06", Init: func(w *World) {
 		t := w.T
-		if t.Pick(4, "family") == 3 {
+		switch t.Pick(5, "family") {
+		case 3:
 			c06Lagging(w)
+			return
+		case 4:
+			c06Switching(w)
 			return
 		}
 		methods := []string{"InPlace", "", "OnDelete", "Recreate", "RollingInPlace", "RollingRecreate", "Sideways"}
